@@ -60,7 +60,10 @@ def gen_wide(rng: random.Random, depth: int, prefix: str, avail_in: list[str], *
                     used_force = True
                 params = list(dict.fromkeys(params))
                 out = f"{prefix}o{i}"
-                nodes.append({"kind": "fn", "name": f"{prefix}n{i}", "params": [{"name": p} for p in params], "outs": [out], "async": None if rng.random() < 0.9 else False})
+                nd_new = {"kind": "fn", "name": f"{prefix}n{i}", "params": [{"name": p} for p in params], "outs": [out], "async": None if rng.random() < 0.9 else False}
+                if rng.random() < 0.15:
+                    nd_new["gen"] = True  # async generator node: its body runs while the framework drains it
+                nodes.append(nd_new)
                 new_outs.append(out)
         avail += new_outs
     if not used_force:
